@@ -66,6 +66,9 @@ type Encoder struct {
 	niTerms     []*Term
 	loopRefSyms []*Term
 	tiFacts     map[*Term]bool
+	loopWindows []*loopWindow
+	cryptOut    *Term
+	cryptOff    *Term
 	specPure    int
 	cbc         map[*Term]*cbcGhost
 	randDraws   int
